@@ -25,6 +25,7 @@ def scripts(name):
         'firstpartial': [[('list', [b'pa', b'lb'])]],
         'art': [[('art', b'song')]],
         'fail': [[('cmd', b'fa'), ('cmd', b'cb')]],
+        'listbin': [[('list', [b'la', b'bb', b'lc']), ('cmd', b'bx')]],
         'typed0': [[('typed', [])]],
         'typed0after': [[('cmd', b'cx'), ('typed', [])]],
         'typed2': [[('typed', [b'ca', b'cb'])], [('cmd', b'cx')]],
@@ -47,6 +48,8 @@ def instances_for(prop, tier, seed):
         add(script='mixed', k=k, budget={'tick': 1})
         add(script='partialout', k=k, budget={'tick': 1})
         add(script='partiallist', k=k, budget={})
+        # a list in which a later command answers with a binary blob, then a single command with one
+        add(script='listbin', k=k, budget={'tick': 1})
         add(script='firstpartial', k=k - 1, budget={})
         add(script='one', k=k, budget={'change': 2, 'partial': 1})
         # from the state right after a reply (inside the re-idle window)
@@ -87,6 +90,11 @@ def instances_for(prop, tier, seed):
             add(script='listok', k=k, budget={'change': 1, 'tick': 1})
             add(script='mixed', prefix='after_reply', k=k, budget={'cancel': 1, 'tick': 1})
             add(script='threecallers', k=k, budget={'change': 1})
+    if prop == 'C05':
+        # the session starts with the handshake: with a password the first request is the password command, idle follows its verdict
+        out.append({'family': 'password', 'verdict': 'OK'})
+        out.append({'family': 'password', 'verdict': 'OK', 'entry': 'opt', 'pw': 'hunter 2'})
+        out.append({'family': 'password', 'verdict': 'ACK'})
     if prop == 'C13':
         add(script='typed0', k=2, budget={})
         add(script='typed0', k=3, budget={'faults': ['eof']})
@@ -105,7 +113,7 @@ def instances_for(prop, tier, seed):
         add(script='list', prefix='inflight_partial', k=k, budget={'faults': ['eof']})
         add(script='list', prefix='inflight_partial2', k=k, budget={'faults': ['eof']})
         add(script='listok', prefix='inflight_partial2', k=k, budget={'faults': ['eof']})
-        add(script='one', k=k + 1, budget={'change': 1, 'faults': ['eof']})
+        add(script='one', k=max(5, k + 1), budget={'change': 1, 'faults': ['eof']})          # (five steps reach the recorded finding F-C08-b in both tiers)
         # the user has dropped the event receiver (documented as allowed): the end of the connection is still noticed
         for f in ('eof', 'read_error', 'garbage'):
             add(script='none', k=k, budget={'dropevents': 1, 'faults': [f]})
@@ -334,6 +342,14 @@ def judge_c08(obs):
         return 'last client handle dropped but the transport is not released'
     # a failure that is not a clean close is surfaced: to the in-flight caller or as closing event
     hard = [f for f in obs['flags'] if f in ('fault:read_error', 'fault:garbage', 'fault:write_error')]
+    if hard and obs['loop_done']:
+        # "surfaced to the caller whose request was in flight": the loop had written `noidle` (or the request itself) for more
+        # requests than were answered, so one was in flight when the transport failed - its caller gets the failure, not a clean close
+        outs = [out for c in obs['callers'] for _, out in c['results']]
+        answered = sum(1 for o in outs if o[0] not in ('closed', 'protocol'))
+        taken = max(sum(1 for l in obs['lines'] if l == 'noidle'), sum(1 for l in obs['lines'] if l not in ('idle', 'noidle') and not l.startswith('command_list')))
+        if taken > answered and any(o[0] == 'closed' for o in outs) and not any(o[0] == 'protocol' for o in outs):
+            return 'transport failure (%s) while a request was in flight, but its caller is told the connection was closed cleanly (results %s)' % (hard[0], outs)
     if hard and obs['loop_done'] and 'dropevents' not in obs['steps']:
         surfaced = 'closed' in obs['events'] or any(out[0] == 'protocol' for c in obs['callers'] for _, out in c['results'])
         if not surfaced:
@@ -351,7 +367,14 @@ def classes_c04(obs):
         ks.append('F-C04-b')
     return ks
 
+def classes_c08(obs, bad):
+    """recorded finding F-C08-b: exactly the end of stream inside an idle reply whose first line(s) went with a dropped receive future"""
+    if bad and bad.startswith('the stream ended inside a reply but no caller') and 'idle_reply_dropped' in obs['flags'] and 'eof_inside_reply' in obs['flags']:
+        return ['F-C08-b']
+    return []
+
 DESCR = {
+    'F-C08-b': 'end of stream inside an idle reply whose first line was consumed by a receive future that select! dropped (request arrived in between): reported as a clean close',
     'F-C04-a': 'an idle reply with several changed: lines yields only the first subsystem (Frame::get returns the first match)',
     'F-C04-b': 'a request arriving after part of an idle reply was read makes select! drop the receive future together with the lines it had consumed: those notifications are lost',
 }
@@ -380,7 +403,7 @@ def run_for(prop, pl):
             res.cls('schedule ' + ('with request' if any(c['results'] for c in obs['callers']) else 'without request'), nontrivial=any(st.startswith(('change', 'tick', 'cancel', 'deliver/2', 'slowwrite', 'fault', 'dropclient')) for st in obs.get('free_steps', obs['steps'])) and any(c['results'] or c['cancelled'] for c in obs['callers']))
             if bad:
                 rec = {'scenario': pl, 'steps': obs['steps'], 'flags': obs['flags']}
-                ks = [k for k in (classes_c04(obs) if prop == 'C04' else []) if k in known]
+                ks = [k for k in (classes_c04(obs) if prop == 'C04' else (classes_c08(obs, bad) if prop == 'C08' else [])) if k in known]
                 if ks:
                     res.known.setdefault(ks[0], dict(rec, what=bad))
                 else:
@@ -547,8 +570,9 @@ def run_password(P, res, pl):
         S.server.password = verdict
         if pl.get('slow'):
             S.t.max_write = 1             # one byte per write call: the password line still has to arrive complete and alone
+        S.connect_may_hang = True
         r = S.connect()
-        if r.variant == 'Ok':
+        if r is not None and r.variant == 'Ok':
             S.settle()
         return S, r
     for pr in explore(P, harness):
@@ -558,6 +582,11 @@ def run_password(P, res, pl):
         S, r = pr.value
         lines = S.server.lines
         bad = None
+        if r is None:
+            bad = 'the handshake never completes (lines written: %s%s)' % (lines, '; protocol monitor: %s' % S.server.violations[0] if S.server.violations else '')
+            res.cls('password ' + verdict, nontrivial=True)
+            res.violations.append({'what': bad, 'input': {'scenario': pl}})
+            continue
         if first is None:
             if r.variant != 'Ok' or lines[:1] != [b'idle']:
                 bad = 'no password given: result %s, lines %s' % (r.variant, lines)
@@ -576,6 +605,8 @@ def run_password(P, res, pl):
                 want = 'IncorrectPassword' if verdict in ('ACK', 'ACKempty', 'ACKperm', 'listACK') else 'ProtocolError'
                 if e.variant != want:
                     bad = 'verdict %s yields %s' % (verdict, e.variant)
+        if not bad and S.server.violations:
+            bad = 'protocol monitor: ' + str(S.server.violations[0])
         res.cls('password ' + verdict, nontrivial=True)
         if bad:
             res.violations.append({'what': bad, 'input': {'scenario': pl}})
@@ -660,6 +691,8 @@ def replay_for(prop, rec, every=0):
         lines = out.get('line', [])
         conn = out.get('connect', ['?'])[0]
         v = pl['verdict']
+        if out.get('violation'):
+            return True, 'native: protocol monitor: %s (lines %s)' % (out['violation'][0], lines)
         if pw is None:
             return (conn != 'Ok' or lines[:1] != ['idle']), 'native: connect=%s lines=%s' % (conn, lines)
         first = 'password "hunter 2"' if pw else 'password '
